@@ -221,6 +221,8 @@ class Interp:
                 return (v.t != 0) if v.nan is None else z3.Or(v.nan, v.t != 0)
             if v.is_str:
                 return z3.Length(v.t) > 0
+        if isinstance(v, Obj) and v.store is not None and not any(S.is_repo_function(self.lookup_class_attr(v.cls, d)) for d in ("__bool__", "__len__")):
+            return len(v.store) > 0
         if isinstance(v, Obj):
             for dunder in ("__bool__", "__len__"):
                 m = self.lookup_class_attr(v.cls, dunder)
@@ -402,6 +404,9 @@ class Interp:
                 if hasattr(native, s):
                     attrs[s] = getattr(native, s)
         o = Obj(type(native), attrs, label=f"native:{type(native).__name__}")
+        if o.store is not None:
+            for k, val in dict.items(native):
+                o.store[k] = self.lift(val)
         self.lifted[key] = o
         for k in list(attrs):
             o.attrs[k] = self.lift(attrs[k])
@@ -690,6 +695,9 @@ class Interp:
             if m is _MISSING:
                 self.fail("TypeError", "object not callable", node)
             return self.call(Bound(m, fn), args, kwargs, node)
+        if isinstance(fn, (types.MethodDescriptorType, types.WrapperDescriptorType, types.BuiltinFunctionType)) and args \
+                and isinstance(args[0], Obj) and args[0].store is not None and getattr(fn, "__objclass__", None) is dict:
+            return self.dict_method(args[0], fn.__name__, args[1:], kwargs, node)
         if isinstance(fn, operator.itemgetter):
             keys = fn.__reduce__()[1]
             if len(keys) == 1:
@@ -704,6 +712,48 @@ class Interp:
             raise Unsupported(f"call of unmodelled callable {getattr(fn, '__qualname__', fn)!r} "
                               f"({getattr(fn, '__module__', '?')}) with symbolic arguments at {self.loc(node)}")
         return r
+
+    def dict_method(self, obj, name, args, kwargs, node):
+        """A method inherited from dict applied to the mapping of a dict-subclass instance."""
+        st = obj.store
+        if name == "__init__":
+            st.clear()
+            if args:
+                src = args[0]
+                if isinstance(src, Obj) and src.store is not None:
+                    st.update(src.store)
+                elif isinstance(src, dict):
+                    st.update(src)
+                else:
+                    for kv in self.iterate(src, node):
+                        k, v = self.iterate(kv, node)
+                        st[k] = v
+            st.update(kwargs)
+            return None
+        if name == "update":
+            for src in args:
+                if isinstance(src, Obj) and src.store is not None:
+                    st.update(src.store)
+                elif isinstance(src, dict):
+                    st.update(src)
+                else:
+                    for kv in self.iterate(src, node):
+                        k, v = self.iterate(kv, node)
+                        st[k] = v
+            st.update(kwargs)
+            return None
+        if name in ("keys", "values", "items"):
+            return list(getattr(st, name)())
+        if name == "copy":
+            return dict(st)
+        if any(isinstance(a, (SV, SStr)) for a in args[:1]):
+            raise Unsupported(f"dict.{name} with a symbolic key")
+        try:
+            return getattr(st, name)(*args, **kwargs)
+        except KeyError as ex:
+            self.raise_exc(KeyError, str(ex))
+        except TypeError as ex:
+            self.fail("TypeError", str(ex), node)
 
     def instantiate(self, cls, args, kwargs, node):
         if issubclass(cls, BaseException):
@@ -1375,6 +1425,8 @@ class Interp:
                 if r is not False:
                     acc.append(self.sym_bool(r))
             return SV(z3.Or(*acc)) if acc else False
+        if isinstance(container, Obj) and container.store is not None and not S.is_repo_function(self.lookup_class_attr(container.cls, "__contains__")):
+            return self.contains(container.store, item, node)
         if isinstance(container, Obj):
             m = self.lookup_class_attr(container.cls, "__contains__")
             if m is not _MISSING:
@@ -1508,7 +1560,7 @@ class Interp:
             raise Unsupported("super() outside a method with known class")
         params = [a.arg for a in f.node.args.posonlyargs + f.node.args.args]
         selfv = fr.locals[params[0]]
-        return LibObj("super", cls=cls, self=selfv)
+        return LibObj("super", cls=cls, inst=selfv)
 
     def defining_class(self, native):
         mod = inspect.getmodule(native)
@@ -1542,6 +1594,8 @@ class Interp:
     def getitem(self, o, idx, node=None):
         if isinstance(o, NDArr):
             return self.lib.numpy.getitem(self, o, idx, node)
+        if isinstance(o, Obj) and o.store is not None and not S.is_repo_function(self.lookup_class_attr(o.cls, "__getitem__")):
+            return self.dict_method(o, "__getitem__", [idx], {}, node)
         if isinstance(o, Obj):
             m = self.lookup_class_attr(o.cls, "__getitem__")
             if m is _MISSING:
@@ -1564,7 +1618,10 @@ class Interp:
             f = idx.fields
             if all(not isinstance(f[k], (SV, Obj)) for k in ("start", "stop", "step")):
                 return o[slice(f["start"], f["stop"], f["step"])]
-            raise Unsupported("symbolic slice of a concrete sequence")
+            items = list(o)
+            seq = SSeq(len(items), lambda i, items=items: self.select_by_index(items, i if isinstance(i, SV) else SV(z3.IntVal(i)), node)
+                       if not isinstance(i, int) else items[i], "tuple" if isinstance(o, tuple) else "list")
+            return self.lib.getitem(self, seq, idx, node)
         if isinstance(o, (tuple, list)) and isinstance(idx, Obj):
             return self.getitem(o, self.index_of(idx, node), node)
         if isinstance(o, (tuple, list)) and isinstance(idx, SV):
@@ -1628,6 +1685,9 @@ class Interp:
         if isinstance(o, NDArr):
             self.lib.numpy.setitem(self, o, idx, v, node)
             return
+        if isinstance(o, Obj) and o.store is not None and not S.is_repo_function(self.lookup_class_attr(o.cls, "__setitem__")):
+            self.dict_method(o, "__setitem__", [idx, v], {}, node)
+            return
         if isinstance(o, Obj):
             m = self.lookup_class_attr(o.cls, "__setitem__")
             if m is _MISSING:
@@ -1648,6 +1708,9 @@ class Interp:
             raise Unsupported(f"item assignment on {type(o).__name__} at {self.loc(node)}")
 
     def delitem(self, o, idx, node):
+        if isinstance(o, Obj) and o.store is not None:
+            self.dict_method(o, "__delitem__", [idx], {}, node)
+            return
         if isinstance(o, (dict, list)) and not isinstance(idx, (SV, SStr)):
             try:
                 del o[idx]
@@ -1680,6 +1743,8 @@ class Interp:
             return list(v)
         if isinstance(v, (str, range)):
             return list(v)
+        if isinstance(v, Obj) and v.store is not None and not S.is_repo_function(self.lookup_class_attr(v.cls, "__iter__")):
+            return list(v.store.keys())
         if isinstance(v, Obj):
             m = self.lookup_class_attr(v.cls, "__iter__")
             if m is not _MISSING:
